@@ -166,11 +166,13 @@ def body_clones(env):
     pressure drop is its own closed form (a shared accumulator would add the other clone's losses)."""
     from symx import fixtures
     kind = env.params['kind']
+    grav = env.params.get('gravity', True)
     with env.patch(MODS):
+        # the gravity option goes through the real constructors (and the real clone)
         if kind == 'rodded':
-            t = fixtures.make_rodded(2, 1)
+            t = fixtures.make_rodded(2, 1, gravity=grav)
         else:
-            t = fixtures.make_unrodded(kind)
+            t = fixtures.make_unrodded(kind, gravity=grav)
         A, B = t.clone(new_flowrate=1.0), t.clone(new_flowrate=2.0)
         regs = []
         for nm, reg in (('A', A), ('B', B)):
@@ -178,7 +180,6 @@ def body_clones(env):
             cool = _Mat()
             cool.density = rho
             reg.coolant = cool
-            reg._gravity = True
             if kind == 'rodded':
                 reg.coolant_int_params = dict(reg.coolant_int_params, ff=ff, vel=vel)
                 reg._spacer_grid = None
@@ -196,8 +197,8 @@ def body_clones(env):
         for nm, reg, rho, ff, vel, de in regs:
             env.eq('clone %s: friction loss is its own f L rho v^2 / (2 De)' % nm, reg._pressure_drop['friction'],
                    ff * L * rho * vel * vel / de / 2.0, tol=1e-9, key='clones_share_pressure_drop')
-            env.eq('clone %s: gravity loss is its own rho g L' % nm, reg._pressure_drop['gravity'], rho * 9.80665 * L, tol=1e-9,
-                   key='clones_share_pressure_drop')
+            env.eq('clone %s: gravity loss is its own rho g L (0 without the gravity option)' % nm, reg._pressure_drop['gravity'],
+                   rho * 9.80665 * L if grav else 0.0, tol=1e-9, key='clones_share_pressure_drop')
         env.eq('the template has accumulated nothing', t._pressure_drop['friction'] + t._pressure_drop['gravity'], 0.0)
 
 
@@ -261,7 +262,8 @@ def instances(tier):
     for nreg in (1, 2, 3, 4):
         inst.append(dict(label='assembly-sum[regions=%d]' % nreg, body=body_assembly, params={'nreg': nreg}))
     for kind in ('simple', '6node', 'rodded'):
-        inst.append(dict(label='clones[%s]' % kind, body=body_clones, params={'kind': kind}))
+        for grav in (True, False):
+            inst.append(dict(label='clones[%s,gravity=%s]' % (kind, grav), body=body_clones, params={'kind': kind, 'gravity': grav}))
     return inst
 
 
